@@ -14,7 +14,8 @@ from fractions import Fraction
 import vlib
 from vlib import cq_str, cq_list, cq_Z, cq_nat, cq_Q
 
-LIMIT_S = 10.0          # wall-clock limit for ONE call of the reader under test
+LIMIT_S = 4.0           # wall-clock limit for ONE call of the reader under test (normal calls take milliseconds)
+MAX_HANGS = 6           # per format: after that many non-terminating calls the remaining damages are not run
 
 
 # ------------------------------------------------------------------ implementation driver
@@ -54,13 +55,13 @@ def mol_sig(m):
     idx = {id(a): i for i, a in enumerate(m.atoms)}
     ch = getattr(m, "atomic_charges", None)
     return {
-        "n_atoms": int(m.n_atoms), "n_bonds": int(m.n_bonds),
+        "n_atoms": int(m.n_atoms), "n_bonds": int(getattr(m, "n_bonds", 0)),
         "elems": [int(a.element.z) for a in m.atoms],
         "dummy": [a.atype.name == "Dummy" for a in m.atoms],
         "labels": [a.label for a in m.atoms],
         "coords": [tuple(float(x) for x in c) for c in m.coords],
         "coords_shape": tuple(m.coords.shape),
-        "bonds": [(idx.get(id(b.a1), -1), idx.get(id(b.a2), -1), b.btype.name) for b in m.bonds],
+        "bonds": [(idx.get(id(b.a1), -1), idx.get(id(b.a2), -1), b.btype.name) for b in getattr(m, "bonds", [])],
         "charges": None if ch is None else [float(x) for x in ch],
     }
 
@@ -305,15 +306,44 @@ def gen_mol2_bases(ml, rng, count):
     return out
 
 
+def with_unity(rng, m):
+    """mol2 text of m with UNITY_ATOM_ATTR (between ATOM and BOND) and UNITY_BOND_ATTR sections of 1..3 groups, groups
+    with 0..2 attributes; a UNITY section must be followed by another record, so the text ends with an (unsupported,
+    skipped) SUBSTRUCTURE section."""
+    lines = to_lines(m.dumps_mol2())
+    ib = lines.index("@<TRIPOS>BOND")
+
+    def groups(n_items):
+        out = []
+        for _ in range(rng.randint(1, 3)):
+            k = rng.choice([0, 1, 1, 2])
+            out.append(f"{rng.randint(1, n_items)} {k}")
+            out += [rng.choice(["charge 1", "charge -1", "color red", "tag x9"]) for _ in range(k)]
+        return out
+    ua = ["@<TRIPOS>UNITY_ATOM_ATTR"] + groups(m.n_atoms) if m.n_atoms else []
+    ub = ["@<TRIPOS>UNITY_BOND_ATTR"] + groups(m.n_bonds) if m.n_bonds else []
+    out = lines[:ib] + ua + lines[ib:] + ub + ["@<TRIPOS>SUBSTRUCTURE", "1 UNL1 1"]
+    return "\n".join(out) + "\n"
+
+
+def gen_unity_bases(ml, rng, count):
+    out = []
+    for b in range(count):
+        ms = [rand_molecule(ml, rng, n=rng.randint(1, 4), elems=["H", "C", "N", "O"]) for _ in range(rng.randint(1, 2))]
+        out.append((f"gen-unity-{b}", "".join(with_unity(rng, m) for m in ms)))
+    return out
+
+
 def bundled(ml, fmt, thorough):
     F = ml.files
     if fmt == "xyz":
         names = ["dummy_xyz", "dendrobine_xyz", "pentane_confs_xyz"]
     else:
-        names = ["dummy_mol2", "benzene_mol2", "dmf_mol2", "pentane_confs_mol2", "dendrobine_mol2", "hadd_test_mol2",
-                 "fxyl_mol2"]
+        # isornitrate is the only bundled file with a UNITY_ATOM_ATTR section: first, so it is never squeezed out
+        names = ["isornitrate_mol2", "dummy_mol2", "benzene_mol2", "dmf_mol2", "pentane_confs_mol2", "dendrobine_mol2",
+                 "hadd_test_mol2", "fxyl_mol2"]
         if thorough:
-            names += ["isornitrate_mol2", "bpa_backbone_mol2", "box_backbone_mol2", "cinchonidine_query",
+            names += ["bpa_backbone_mol2", "box_backbone_mol2", "cinchonidine_query",
                       "cinchonidine_mcs", "nanotube_mol2"]
     out = []
     for n in names:
@@ -389,6 +419,10 @@ def plan_damages(rng, lines, thorough, budget):
     ks = list(range(n + 1))
     if not thorough and n > 160:
         ks = sorted(set(rng.sample(ks, 120) + [0, 1, n - 1, n]))
+    unity = [i for i, l in enumerate(lines) if l.strip().startswith("@<TRIPOS>UNITY_")]
+    if unity:     # every boundary inside and right after a UNITY_* section, whatever the sampling above did
+        ends = [next((j for j in range(u + 1, n) if lines[j].strip().startswith("@<TRIPOS>")), n) for u in unity]
+        ks = sorted(set(ks) | {k for u, e in zip(unity, ends) for k in range(u, e + 2) if k <= n})
     ds += [(("trunc", k), "trunc") for k in ks]
     if n:
         last = lines[-1]
@@ -426,7 +460,8 @@ def judge(fmt, lines, owner, orig, d, kind, outcome):
     """Property C10 judged on the implementation alone. Returns None or (signature, text)."""
     tag = f"C10:{fmt}:{kind.split('-')[0] if kind.startswith('tok-') else kind}"
     if outcome[0] == "hang":
-        return (f"{tag}:no-termination", f"reader did not return within {LIMIT_S}s on damaged text ({d})")
+        return (f"C10:{fmt}:reader-does-not-terminate",
+                f"reader did not return within {LIMIT_S}s on the text damaged by {d} (kind {kind}); the replay holds the text")
     if outcome[0] == "err":
         return None
     ret = outcome[1]
@@ -500,7 +535,12 @@ def collect(ctx, rep, ml, fmt):
     thorough = ctx.thorough
     bases = bundled(ml, fmt, thorough)
     ngen = 14 if not thorough else 60
-    bases += gen_xyz_bases(ml, rng, ngen) if fmt == "xyz" else gen_mol2_bases(ml, rng, ngen)
+    if fmt == "xyz":
+        bases += gen_xyz_bases(ml, rng, ngen)
+    else:
+        # texts with UNITY_* sections come right after isornitrate: they must always be truncated at EVERY line boundary
+        bases = bases[:1] + gen_unity_bases(ml, rng, 6 if not thorough else 25) + bases[1:] + gen_mol2_bases(ml, rng, ngen)
+    hangs = 0
     table = MolTable()
     base_lines, cases, meta, tokens = [], [], [], set()
     for bname, text in bases:
@@ -522,7 +562,7 @@ def collect(ctx, rep, ml, fmt):
                     for l in lines:
                         tokens.update(t for t in l.split() if not floatlike(t))
             else:
-                rep.violate(f"C10:{fmt}:none:no-termination", f"reader did not return on the undamaged text {bname}",
+                rep.violate(f"C10:{fmt}:reader-does-not-terminate", f"reader did not return on the undamaged text {bname}",
                             {"fmt": fmt, "lines": lines, "damage": ["none"], "kind": "none"})
             continue
         orig = o0[1]
@@ -536,8 +576,12 @@ def collect(ctx, rep, ml, fmt):
         cap = max(80, (200_000 if thorough else 60_000) // max(len(lines), 1))
         in_coq = set(range(len(plan))) if len(plan) <= cap else set(rng.sample(range(len(plan)), cap)) | {0}
         for di, (d, kind) in enumerate(plan):
+            if hangs >= MAX_HANGS:
+                rep.count(f"{fmt}:not-run-after-{MAX_HANGS}-hangs")
+                continue
             dt = damaged_text(lines, d)
             out = observe(ml, fmt, dt)
+            hangs += out[0] == "hang"
             rep.count(f"{fmt}:{kind}")
             rep.count(f"{fmt}:outcome:" + (out[1] if out[0] == "err" else out[0]))
             v = judge(fmt, lines, owner, orig, d, kind, out)
